@@ -575,7 +575,29 @@ func (env *SpecEnv) call(e *SExpr) specVal {
 			}
 			return specVal{q, tBool}
 		}
-		return specVal{Exists(bvs, And(append(rng, b)...)), tBool}
+		ex := Exists(bvs, And(append(rng, b)...))
+		if ex.Op == "exists" && len(bvs) == 1 && bvs[0].S == SInt && !env.noAutoPats {
+			// when the quantifier ends up negated (a goal, or a hypothesis under negation) the solver needs a
+			// trigger: the elements s[k] indexed by exactly the bound variable, as for forall
+			var pts [][]*Term
+			for _, p := range pats {
+				var one []*Term
+				for _, a := range p.Args {
+					one = append(one, inner.expr(a).t)
+				}
+				pts = append(pts, one)
+			}
+			if len(pts) == 0 {
+				for _, c := range elemTriggers(b, bvs[0]) {
+					pts = append(pts, []*Term{c})
+				}
+			}
+			if len(pts) > 0 {
+				ex.Pats = pts[0]
+				ex.AltPats = pts[1:]
+			}
+		}
+		return specVal{ex, tBool}
 	case "len":
 		x := env.expr(e.Args[0])
 		switch {
@@ -758,13 +780,23 @@ func (env *SpecEnv) call(e *SExpr) specVal {
 		ks := fx.mapKeySort(env.mapItInfo.kt)
 		hs := ArrSort(SInt, ArrSort(ks, SBool))
 		return specVal{Select(Select(fx.heapGet(env.st, "G_visited_"+sanitize(string(ks)), hs), env.mapIt), fx.mapKey(k.t, env.mapItInfo.kt)), tBool}
+	case "visitedk":
+		// visitedk(c): like visited, for an abstract key c (see keyof)
+		if env.mapIt == nil {
+			env.fail("visitedk() is only available in the invariant of a range loop over a map")
+		}
+		c := env.expr(e.Args[0])
+		ks := fx.mapKeySort(env.mapItInfo.kt)
+		hs := ArrSort(SInt, ArrSort(ks, SBool))
+		return specVal{Select(Select(fx.heapGet(env.st, "G_visited_"+sanitize(string(ks)), hs), env.mapIt), c.t), tBool}
 	case "mapdom":
 		// mapdom(m, k): key k present in map m
 		m := env.expr(e.Args[0])
 		k := env.expr(e.Args[1])
 		mt := m.typ.Underlying().(*types.Map)
 		dn, _, ds, _ := fx.mapHeapNames(mt)
-		return specVal{Select(Select(fx.heapGet(env.st, dn, ds), m.t), fx.mapKey(k.t, mt.Key())), tBool}
+		// a nil map has no keys (as the lookup in the code sees it)
+		return specVal{And(Neq(m.t, IntLit(0)), Select(Select(fx.heapGet(env.st, dn, ds), m.t), fx.mapKey(k.t, mt.Key()))), tBool}
 	}
 	// function-typed variable (e.g. parameter `valid`)
 	if v, ok := env.lookup(e.Name); ok {
